@@ -135,6 +135,22 @@ fn case_utf8(input: &Input, ctx: &mut Ctx) -> CaseResult {
     ctx.count_distinct(n[2] * 2);
     Ok(())
 }
+/// nums = [max atoms, start, count]: c04's sequences of UTF-8 atoms in the v3 CONNECT text fields (both protocol
+/// levels) and a v5 user property; whatever any front-end accepts is walked
+fn case_utf8_atoms(input: &Input, ctx: &mut Ctx) -> CaseResult {
+    let n = input.nums();
+    for i in n[1]..n[1] + n[2] {
+        let seq = crate::checks::c04::utf8_atom_seq(i, n[0] as u32);
+        for (_, fr) in crate::checks::c04::utf8_connect_frames(&seq) {
+            all_fronts::<V3>(&fr, "utf8-sweep", ctx)?;
+        }
+        all_fronts::<V5>(&crate::checks::c04::utf8_frames(&seq).1, "utf8-sweep", ctx)?;
+    }
+    ctx.more_evals((n[2] * 7).saturating_sub(1));
+    ctx.count_distinct(n[2] * 7);
+    Ok(())
+}
+pub const SUB_UTF8_ATOMS: Sub = Sub { name: "c12.utf8-atom-sequences", f: case_utf8_atoms };
 pub const SUB_UTF8: Sub = Sub { name: "c12.utf8-sequences", f: case_utf8 };
 
 pub const SUB_H3: Sub = Sub { name: "c12.history.v3", f: case_history::<V3> };
@@ -163,7 +179,7 @@ pub const SUB_B3: Sub = Sub { name: "c12.bytes.v3", f: case_bytes::<V3> };
 pub const SUB_B5: Sub = Sub { name: "c12.bytes.v5", f: case_bytes::<V5> };
 
 pub fn subs() -> Vec<Sub> {
-    vec![SUB_V3, SUB_V5, SUB_B3, SUB_B5, SUB_H3, SUB_H5, SUB_X3, SUB_X5, SUB_UTF8]
+    vec![SUB_V3, SUB_V5, SUB_B3, SUB_B5, SUB_H3, SUB_H5, SUB_X3, SUB_X5, SUB_UTF8, SUB_UTF8_ATOMS]
 }
 
 pub fn run(env: &mut Env) -> RunResult {
@@ -186,6 +202,11 @@ pub fn run(env: &mut Env) -> RunResult {
     let full = env.thorough();
     let total = crate::checks::c04::utf8_seq_count(full);
     env.run_enum(SUB_UTF8, total.div_ceil(4_096), true, move |i| Input::Nums(vec![full as u64, i * 4_096, 4_096.min(total - i * 4_096)]))?;
+    let atoms = env.tier.sel(3u64, 4u64);
+    let at = crate::checks::c04::utf8_atom_seq_count(atoms as u32);
+    env.run_enum(SUB_UTF8_ATOMS, at.div_ceil(512), true, move |i| Input::Nums(vec![atoms, i * 512, 512.min(at - i * 512)]))?;
+    env.require("c12.utf8-atom-sequences", "accepted");
+    env.require("c12.utf8-atom-sequences", "rejected-by-all");
     env.require("c12.utf8-sequences", "accepted");
     env.require("c12.utf8-sequences", "rejected-by-all");
     let n = env.tier.sel(25_000, 400_000);
